@@ -24,6 +24,37 @@ type opCase struct {
 	// operand attributes (randomised, must not matter)
 	xp, yp, up uint
 	xm, ym, um int
+	// previous contents of the receiver (must not matter): 0 fresh, 1 an inexact quotient (stale Below/Above accuracy),
+	// 2 an infinity, 3 a longer value rounded into it, 4 a negative zero
+	dirty    int
+	noSoil   bool // C10's reference execution: a truly fresh receiver
+	spareCap int  // extra capacity (words) of the buffer of an operand that is also the receiver
+}
+
+var (
+	decOne   = new(decimal.Decimal).SetInt64(1)
+	decThree = new(decimal.Decimal).SetInt64(3)
+	decSeven = new(decimal.Decimal).SetInt64(-7)
+)
+
+// soil gives a receiver previous contents, including a non-Exact accuracy.
+func soil(z *decimal.Decimal, kind int) {
+	if z.Prec() == 0 || z.Prec() > 20000 {
+		return
+	}
+	switch kind {
+	case 1:
+		z.Quo(decOne, decThree)
+	case 2:
+		z.SetInf(true)
+	case 3:
+		z.Quo(decThree, decSeven)
+		z.SetPrec(z.Prec()) // keeps the value, resets nothing else
+	case 4:
+		z.Quo(decOne, decThree)
+		z.Sub(z, z)
+		z.Neg(z)
+	}
 }
 
 func valKey(h interface{ Write([]byte) (int, error) }, v oracle.Val) {
@@ -121,6 +152,9 @@ func (k *opCase) attrs(r *hx.RNG) {
 	}
 	k.xp, k.yp, k.up = extra(), extra(), extra()
 	k.xm, k.ym, k.um = r.Mode(), r.Mode(), r.Mode()
+	if r.Chance(60) {
+		k.dirty = r.Range(1, 4)
+	}
 	k.x, k.y, k.u = inRange(k.x), inRange(k.y), inRange(k.u)
 }
 
@@ -162,6 +196,7 @@ func (k *opCase) exec() (hx.State, *hx.PanicInfo) {
 		U = hx.Mk(k.u, digitsOf(k.u)+k.up, k.um)
 	}
 	z := new(decimal.Decimal).SetPrec(uint(k.p)).SetMode(decimal.RoundingMode(k.mode))
+	soil(z, k.dirty)
 	pi := hx.Try(func() {
 		switch k.op {
 		case "Add":
@@ -766,6 +801,17 @@ func (k *opCase) execShape(part [4]int, prep func() *decimal.Decimal) (got hx.St
 			if int64(d.Prec()) != k.p {
 				panic(hx.MkError{Msg: "operand sharing the receiver does not fit the receiver's precision"})
 			}
+			if k.spareCap > 0 && vals[role].Form == oracle.Finite {
+				// like a value produced by earlier arithmetic: the mantissa sits in a buffer with spare capacity (stale words beyond len)
+				raw := decimal.VerifGetRaw(d)
+				buf := make([]decimal.Word, raw.Len+k.spareCap)
+				copy(buf, raw.Mant[:raw.Len])
+				for i := raw.Len; i < len(buf); i++ {
+					buf[i] = decimal.Word(wb - 1)
+				}
+				raw.Mant = buf
+				decimal.VerifSetRaw(d, raw)
+			}
 			vars[g] = d
 		} else {
 			vars[g] = hx.Mk(vals[role], digitsOf(vals[role])+xp[role], xm[role])
@@ -777,6 +823,9 @@ func (k *opCase) execShape(part [4]int, prep func() *decimal.Decimal) (got hx.St
 			z = prep()
 		} else {
 			z = new(decimal.Decimal).SetPrec(uint(k.p)).SetMode(decimal.RoundingMode(k.mode))
+			if !k.noSoil {
+				soil(z, k.dirty)
+			}
 		}
 	}
 	for role := 1; role <= ar; role++ {
